@@ -1,33 +1,4 @@
-import Driver.Util
+import Driver.Loop
 import Driver.C11
-/-
-Line protocol: one request per line (`<op> <tokens…>`), one canonical reply line per request.
-Unknown or malformed requests answer `bad-op`; nothing is ever defaulted.
--/
-namespace Driver
 
-def dispatch (op : String) (args : List String) : Option String :=
-  (C11.handle op args)
-
-def answer (line : String) : String :=
-  match (line.splitOn " ").filter (· ≠ "") with
-  | [] => "bad-op"
-  | op :: args =>
-    match dispatch op args with
-    | some r => r
-    | none => "bad-op"
-
-partial def loop (hin : IO.FS.Stream) (hout : IO.FS.Stream) : IO Unit := do
-  let line ← hin.getLine
-  if line.isEmpty then return ()
-  let line := (line.trimAsciiEnd).toString
-  hout.putStrLn (answer line)
-  loop hin hout
-
-end Driver
-
-def main : IO Unit := do
-  let hin ← IO.getStdin
-  let hout ← IO.getStdout
-  Driver.loop hin hout
-  hout.flush
+def main : IO Unit := Driver.runMain [Driver.C11.handle]
